@@ -46,7 +46,7 @@ def precheck(case):
 
 
 def budget(tier):
-    return 3000 if tier == "quick" else 60000
+    return 6000 if tier == "quick" else 60000
 
 
 def strategy(tier):
